@@ -26,10 +26,12 @@ def inRam (m : Mem) (a : BitVec 16) : Bool :=
   | .ram _ => true
   | .rom _ => false
 
+/-- a window that shows a ROM page is not RAM -/
 theorem inRam_of_rom (m : Mem) (a : BitVec 16) (p : Nat) (h : m.map (a.toNat / pageSize) = .rom p) :
     inRam m a = false := by
   unfold inRam; rw [h]
 
+/-- a window that shows a RAM bank is RAM -/
 theorem inRam_of_ram (m : Mem) (a : BitVec 16) (p : Nat) (h : m.map (a.toNat / pageSize) = .ram p) :
     inRam m a = true := by
   unfold inRam; rw [h]
@@ -52,11 +54,13 @@ theorem write_romdata (m : Mem) (a : BitVec 16) (v : BitVec 8) : (m.write a v).r
   unfold Mem.write
   split <;> rfl
 
+/-- stores never change where an address leads -/
 theorem write_paged (m : Mem) (a b : BitVec 16) (v : BitVec 8) :
     (m.write a v).pagedAddress b = m.pagedAddress b := by
   unfold Mem.pagedAddress
   rw [write_map]
 
+/-- stores never change which windows show RAM -/
 theorem write_inRam (m : Mem) (a b : BitVec 16) (v : BitVec 8) : inRam (m.write a v) b = inRam m b := by
   unfold inRam; rw [write_map]
 
@@ -115,51 +119,63 @@ theorem read_rom (m : Mem) (b : BitVec 16) (p : Nat) (h : m.map (b.toNat / pageS
 
 /-! ### derived bus operations on the machine bus -/
 
+/-- a timed read on the machine returns the byte behind the map (waits do not touch memory) -/
 theorem read_val (a : BitVec 16) (k : Nat) (z : ZX) : (read a k z).1 = z.ctl.mem.read a := by
   show (z.ctl.waitMreq a k).mem.read a = _
   rw [ctl_waitMreq_mem]
 
+/-- the bus state a timed read leaves is that of its wait -/
 theorem read_bus (a : BitVec 16) (k : Nat) (z : ZX) : (read a k z).2 = Bus.waitMreq a k z := rfl
 
+/-- a timed read leaves memory alone -/
 theorem read_mem (a : BitVec 16) (k : Nat) (z : ZX) : (read a k z).2.ctl.mem = z.ctl.mem :=
   waitMreq_mem a k z
 
+/-- a timed store on the machine stores through the map -/
 theorem write_mem (a : BitVec 16) (v : BitVec 8) (k : Nat) (z : ZX) :
     (write a v k z).ctl.mem = z.ctl.mem.write a v := by
   show (z.ctl.waitMreq a k).mem.write a v = _
   rw [ctl_waitMreq_mem]
 
+/-- a word read: low byte at `a`, high byte at `a + 1` (16-bit wrap), both behind the map -/
 theorem readWord_val (a : BitVec 16) (k : Nat) (z : ZX) :
     (readWord a k z).1 = mk16 (z.ctl.mem.read (a + 1)) (z.ctl.mem.read a) := by
   simp only [readWord]
   rw [read_val, read_val, read_mem]
 
+/-- a word read leaves memory alone -/
 theorem readWord_mem (a : BitVec 16) (k : Nat) (z : ZX) : (readWord a k z).2.ctl.mem = z.ctl.mem := by
   simp only [readWord]
   rw [read_mem, read_mem]
 
+/-- the popped word: low byte at SP, high byte at SP+1, both behind the map -/
 theorem pop16_val (k : Nat) (s : Cpu) (z : ZX) :
     (pop16 k s z).1 = mk16 (z.ctl.mem.read (s.sp + 1)) (z.ctl.mem.read s.sp) := by
   simp only [pop16]
   rw [read_val, read_val, read_mem]
 
+/-- a pop leaves memory alone -/
 theorem pop16_mem (k : Nat) (s : Cpu) (z : ZX) : (pop16 k s z).2.2.ctl.mem = z.ctl.mem := by
   simp only [pop16]
   rw [read_mem, read_mem]
 
+/-- a pop moves SP up by two and nothing else of the CPU -/
 theorem pop16_cpu (k : Nat) (s : Cpu) (z : ZX) : (pop16 k s z).2.1 = { s with sp := s.sp + 2 } := rfl
 
 /-- memory after the two stores of a push: high byte at SP-1 first, low byte at SP-2 second -/
 def pushed (m : Mem) (sp w : BitVec 16) : Mem := (m.write (sp - 1) (hi w)).write (sp - 2) (lo w)
 
+/-- memory after `push16` on the machine is `pushed` -/
 theorem push16_mem (w : BitVec 16) (k : Nat) (s : Cpu) (z : ZX) :
     (push16 w k s z).2.ctl.mem = pushed z.ctl.mem s.sp w := by
   simp only [push16, pushed]
   rw [write_mem, write_mem]
 
+/-- a push never moves the map -/
 theorem pushed_map (m : Mem) (sp w : BitVec 16) : (pushed m sp w).map = m.map := by
   unfold pushed; rw [write_map, write_map]
 
+/-- a push never changes ROM contents -/
 theorem pushed_rom (m : Mem) (sp w : BitVec 16) : (pushed m sp w).rom = m.rom := by
   unfold pushed; rw [write_romdata, write_romdata]
 
@@ -181,6 +197,7 @@ theorem decision_zx (s : Cpu) (z : ZX) :
 
 /-! ### runs -/
 
+/-- every state of a run from a reachable state is reachable (`C02.Reach`, the bus left alone between steps) -/
 theorem reach_run {β : Type} [Bus β] (v : Variant) (n : Nat) (sb : Cpu × β) (h : C02.Reach v sb) :
     C02.Reach v (run v n sb) := by
   induction n generalizing sb with
@@ -191,6 +208,7 @@ theorem reach_run {β : Type} [Bus β] (v : Variant) (n : Nat) (sb : Cpu × β) 
     obtain ⟨s, b⟩ := sb
     exact C02.Reach.step s b b h
 
+/-- `run (a + b)` is `run b` after `run a` -/
 theorem run_add {β : Type} [Bus β] (v : Variant) (a b : Nat) (sb : Cpu × β) :
     run v (a + b) sb = run v b (run v a sb) := by
   induction a generalizing sb with
@@ -200,6 +218,7 @@ theorem run_add {β : Type} [Bus β] (v : Variant) (a b : Nat) (sb : Cpu × β) 
     simp only [run]
     exact ih _
 
+/-- one more step at the end of a run -/
 theorem run_succ' {β : Type} [Bus β] (v : Variant) (n : Nat) (sb : Cpu × β) :
     run v (n + 1) sb = emulate v (run v n sb) := by
   rw [run_add]; rfl
